@@ -19,6 +19,12 @@ type vsItem struct {
 func (v vsItem) String() string { return Label{v.Name, v.T, v.Sub}.String() }
 
 func enumValueLists(maxLen int, names []string, f func([]vsItem)) {
+	enumValueListsX(maxLen, names, false, f)
+}
+
+// enumValueListsX: with sameTypeSubtypes, two type-only values may share a type as long
+// as their subtypes differ (C15: "by type and subtype when no other value shares both").
+func enumValueListsX(maxLen int, names []string, sameTypeSubtypes bool, f func([]vsItem)) {
 	var menu []vsItem
 	for _, n := range names {
 		for t := 0; t < 3; t++ {
@@ -39,7 +45,7 @@ func enumValueLists(maxLen int, names []string, f func([]vsItem)) {
 				if m.Name != "" && strings.EqualFold(m.Name, c.Name) {
 					ok = false
 				}
-				if m.Name == "" && c.Name == "" && m.T == c.T {
+				if m.Name == "" && c.Name == "" && m.T == c.T && (!sameTypeSubtypes || m.Sub == c.Sub) {
 					ok = false
 				}
 			}
@@ -63,7 +69,15 @@ func lookup(set *am.ValueSet, it vsItem) *am.Value {
 	if it.Name != "" {
 		return set.Named(strings.ToLower(it.Name))
 	}
-	return set.Typed(typeOf(it.T))
+	// a type-only entry is reached by type+subtype, or by type alone; an entry that
+	// shares both with a named entry *and* its type with another type-only entry cannot
+	// be addressed through the accessors at all (nil: its round trip is not judged)
+	for _, p := range []*am.Value{set.TypedSubtype(typeOf(it.T), it.Sub), set.Typed(typeOf(it.T))} {
+		if p != nil && p.Name == "" && p.Subtype == it.Sub {
+			return p
+		}
+	}
+	return nil
 }
 
 func init() {
@@ -72,7 +86,7 @@ func init() {
 		if mode == "thorough" {
 			maxLen = 3
 		}
-		enumValueLists(maxLen, []string{"a", "B", "c", ""}, func(items []vsItem) {
+		enumValueListsX(maxLen, []string{"a", "B", "c", ""}, true, func(items []vsItem) {
 			items = append([]vsItem{}, items...)
 			var ds []string
 			for _, it := range items {
@@ -100,12 +114,23 @@ func init() {
 					return
 				}
 				// assign a term to every entry through the pointers the accessors return
+				assigned := map[int]bool{}
 				for i, it := range items {
 					v := lookup(set, it)
 					if v == nil {
-						add("lookup", "entry %s not found", it)
-						return
+						shares := 0
+						for _, o := range items {
+							if o.T == it.T && (o.Name == "" || o.Sub == it.Sub) {
+								shares++
+							}
+						}
+						if shares <= 1 {
+							add("lookup", "entry %s not found", it)
+							return
+						}
+						continue
 					}
+					assigned[i] = true
 					v.Value = mkVal(it.T, fmt.Sprintf("v%d", i))
 				}
 				// Signature / SignatureValues / FromSignature round trip into a fresh set
@@ -127,6 +152,9 @@ func init() {
 						return
 					}
 					for i, it := range items {
+						if !assigned[i] {
+							continue
+						}
 						v := lookup(fresh, it)
 						if v == nil || provOf(v.Value) != fmt.Sprintf("v%d", i) {
 							add("roundtrip", "after FromSignature(SignatureValues()) entry %s holds %q, want v%d", it, provOfV(v), i)
@@ -134,7 +162,7 @@ func init() {
 					}
 					// Values() reports the values (copies) including what they hold
 					for i, v := range set.Values() {
-						if provOf(v.Value) != fmt.Sprintf("v%d", i) {
+						if assigned[i] && provOf(v.Value) != fmt.Sprintf("v%d", i) {
 							add("values-copy", "Values()[%d] holds %q", i, provOf(v.Value))
 						}
 					}
@@ -304,7 +332,7 @@ func (w *World) buildBuiltDyn(spec FuncSpec, failing func() bool) (*am.Func, err
 			if l.Name != "" {
 				v = out.Named(l.Name)
 			} else {
-				v = out.TypedSubtype(typeOf(l.T), l.Sub)
+				v = typedEntry(out, l)
 			}
 			if v == nil {
 				panic(fmt.Sprintf("harness: built output %s not found in set", l))
